@@ -50,10 +50,9 @@ func decorated(o *Opnd, kind int) *Dec {
 
 func cmpValues(tier string) []*cmpVal {
 	var os []*Opnd
+	os = append(os, DVals(2, 2, true, 34, 0)...)
 	if tier == "thorough" {
 		os = append(os, DVals(3, 1, true, 34, 0)...)
-	} else {
-		os = append(os, DVals(2, 2, true, 34, 0)...)
 	}
 	for _, v := range WVecs(3, S7) {
 		os = append(os, mkWords(false, v, 0, 0, 0), mkWords(true, v, 0, 0, 0))
@@ -64,10 +63,7 @@ func cmpValues(tier string) []*cmpVal {
 		w2 := append([]uint64{1}, v...)
 		os = append(os, mkWords(false, w2, 0, 0, 0), mkWords(true, w2, 0, 0, 0))
 	}
-	J := 12
-	if tier == "thorough" {
-		J = 20
-	}
+	J := 20
 	for _, s := range RunLengthStrings(J) {
 		c := mustInt(s)
 		os = append(os, mkCoef(false, c, -int64(len(s)), uint32(len(s))+1, 0), mkCoef(true, c, -int64(len(s)), uint32(len(s))+1, 0))
